@@ -1,7 +1,8 @@
 (* C20 — deciding obligations. Statements only, closed by the lemmas proved in Async/*Proofs.v. *)
 From Coq Require Import ZArith List Bool.
 From VF Require Import Async.Collector Async.CollectorProofs.
-From VF Require Import Async.StreamTypes Generated.RetryTable Async.Stream Async.StreamProofs Async.StreamProvenanceProofs.
+From VF Require Import Async.StreamTypes Generated.RetryTable Async.Stream Async.StreamProofs Async.StreamProvenanceProofs
+  Async.StreamCancelProofs.
 Import ListNotations.
 
 (* ---- Collector.collect_async: for every concurrency, budget, next_job oracle and completion schedule ---- *)
@@ -153,6 +154,45 @@ Theorem C20_cancel_once : forall pp pj fl evs,
 Proof. exact completes_once_and_cancel_once. Qed.
 Print Assumptions C20_cancel_once.
 
+(* cancellation cancels the remote job: along every event sequence submit e ends cancelled at step c iff
+   cancel_quantum_job for its job reaches the server at step c *)
+Theorem C20_cancelled_iff_remote_cancel : forall pp pj fl evs c e,
+  let m := mrun pp pj fl evs in
+  In (c, e, OCancelled) (obs_dones m) <-> In (c, e) (obs_cancels m).
+Proof. exact cancelled_iff_remote_cancel. Qed.
+Print Assumptions C20_cancelled_iff_remote_cancel.
+
+(* ... at every cancellation point of a running submit (cancelled_at m c e = e's future ended cancelled at step c and its
+   cancel RPC was sent at step c): cancel() while the execution idles; *)
+Theorem C20_cancel_point_idle : forall pp pj fl evs i,
+  let m := mrun pp pj fl evs in
+  running m i -> cancelled_at (mrun pp pj fl (evs ++ [Cancel i])) (S (clock m)) i.
+Proof. exact cancel_point_idle. Qed.
+Print Assumptions C20_cancel_point_idle.
+
+(* cancel() while the reply to its current request is being delivered, whatever the reply (result, failed job, a code the
+   client would have answered by a retry request, a fatal code); *)
+Theorem C20_cancel_point_reply : forall pp pj fl evs k id p rest e,
+  let m := mrun pp pj fl evs in
+  take_nth k (pending m) = Some ((id, p), rest) -> waits m e id ->
+  cancelled_at (mrun pp pj fl (evs ++ [RespondCancel k])) (S (clock m)) e.
+Proof. exact cancel_point_reply. Qed.
+Print Assumptions C20_cancel_point_reply.
+
+(* cancel() while a stream failure is being delivered, retryable or not; *)
+Theorem C20_cancel_point_break : forall pp pj fl evs x i,
+  let m := mrun pp pj fl evs in
+  running m i -> cancelled_at (mrun pp pj fl (evs ++ [BreakCancel x i])) (S (clock m)) i.
+Proof. exact cancel_point_break. Qed.
+Print Assumptions C20_cancel_point_break.
+
+(* stop() with the job in flight *)
+Theorem C20_cancel_point_stop : forall pp pj fl evs e,
+  let m := mrun pp pj fl evs in
+  running m e -> cancelled_at (mrun pp pj fl (evs ++ [Stop])) (S (clock m)) e.
+Proof. exact cancel_point_stop. Qed.
+Print Assumptions C20_cancel_point_stop.
+
 (* a response changes the execution subscribed under its message id and no other *)
 Theorem C20_demux_only_registered_waiter : forall m k e',
   match take_nth k (pending m) with
@@ -166,7 +206,7 @@ Print Assumptions C20_demux_only_registered_waiter.
 (* an outcome reaches a submitter only through an event that concerns its own job: after one more event the completed
    futures are the earlier ones plus those `caused` by the event — the response to the waiting execution's own current
    request (with that response's content), a non-retryable failure of the stream it is subscribed on (that failure), its
-   own cancellation, or stop() *)
+   own cancellation (idle, or while a reply / a stream failure is being delivered to it), or stop() *)
 Theorem C20_outcome_provenance : forall pp pj fl evs ev c e o,
   In (c, e, o) (obs_dones (mrun pp pj fl (evs ++ [ev]))) ->
   In (c, e, o) (obs_dones (mrun pp pj fl evs)) \/
@@ -273,3 +313,18 @@ Example C20_stream_example_own_reply :
   let m := mrun [] [] [] [Submit 0; Process 0] in
   take_nth 0 (pending m) = Some ((0, MRes (RResult 0)), []) /\ waiting_on m 0 0 = true.
 Proof. vm_compute. split; reflexivity. Qed.
+(* hypotheses of the cancellation-point theorems: submit 1 is running with its reply (an already-exists code, which the client
+   would answer with a retry request) outstanding; a cancel racing with that reply, with a retryable and with a fatal stream
+   failure, and stop(): submit 1 ends cancelled and its remote job is cancelled, submit 0 retries / raises / is cancelled *)
+Example C20_stream_example_cancel_points :
+  let evs := [Submit 0; Submit 0; RejectReq 1 PROGRAM_ALREADY_EXISTS] in
+  let m := mrun [] [] [] evs in
+  running m 1 /\ take_nth 0 (pending m) = Some ((1, MErr PROGRAM_ALREADY_EXISTS), []) /\ waiting_on m 1 1 = true /\
+  (let m' := mrun [] [] [] (evs ++ [RespondCancel 0]) in obs_dones m' = [(4, 1, OCancelled)] /\ obs_cancels m' = [(4, 1)]) /\
+  (let m' := mrun [] [] [] (evs ++ [BreakCancel XServiceUnavailable 1]) in
+   obs_dones m' = [(4, 1, OCancelled)] /\ obs_cancels m' = [(4, 1)] /\ obs_reqs m' = [(1, 0, 0, CreateProgJob); (2, 1, 1, CreateProgJob); (4, 0, 2, GetResult)]) /\
+  (let m' := mrun [] [] [] (evs ++ [BreakCancel XNotFound 1]) in
+   obs_dones m' = [(4, 1, OCancelled); (4, 0, ORaisedExn XNotFound)] /\ obs_cancels m' = [(4, 1)]) /\
+  (let m' := mrun [] [] [] (evs ++ [Stop]) in
+   obs_dones m' = [(4, 0, OCancelled); (4, 1, OCancelled)] /\ obs_cancels m' = [(4, 0); (4, 1)]).
+Proof. vm_compute. split; [eexists; split; reflexivity|]. repeat split; reflexivity. Qed.
